@@ -224,8 +224,8 @@ theorem all_inRoot {root n : Text} {l : List Text} (h : l.all (inPluginDir root 
   intro p hp
   exact inPluginDir_inRoot (h p hp)
 
-theorem holds_get (i : Input) (h : i.op = .get) : Holds i (runGet i) = true := by
-  simp only [Holds, clauses, effName, h, Clauses.holds_cons, Clauses.holds_nil, Bool.and_true]
+theorem holds_get (i : Input) (h : i.op = .get) : HoldsOp i (runGet i) = true := by
+  simp only [HoldsOp, clausesOp, effName, h, Clauses.holds_cons, Clauses.holds_nil, Bool.and_true]
   unfold runGet
   cases hv : validName i.name with
   | false =>
@@ -245,8 +245,8 @@ theorem holds_get (i : Input) (h : i.op = .get) : Holds i (runGet i) = true := b
         simp [isPluginExe, this, comps_exePath i.root i.name hv]
       cases hk : n.kind <;> simp [hk, Kind.statRegular, Kind.runnable, ranBy, errObs, hs, hx]
 
-theorem holds_verify (i : Input) (h : i.op = .verify) : Holds i (runVerify i) = true := by
-  simp only [Holds, clauses, effName, h, Clauses.holds_cons, Clauses.holds_nil, Bool.and_true]
+theorem holds_verify (i : Input) (h : i.op = .verify) : HoldsOp i (runVerify i) = true := by
+  simp only [HoldsOp, clausesOp, effName, h, Clauses.holds_cons, Clauses.holds_nil, Bool.and_true]
   unfold runVerify
   by_cases hsp : i.name.all isSpace = true
   · simp [hsp, errObs]
@@ -264,12 +264,12 @@ theorem holds_verify (i : Input) (h : i.op = .verify) : Holds i (runVerify i) = 
           simp [isPluginExe, this, comps_exePath i.root i.name hv]
         cases hk : n.kind <;> simp [hk, Kind.statRegular, Kind.runnable, ranBy, errObs, hs, hx]
 
-theorem holds_list (i : Input) (h : i.op = .list) : Holds i (runList i) = true := by
-  simp [Holds, clauses, effName, h, Clauses.holds_cons, Clauses.holds_nil, runList]
+theorem holds_list (i : Input) (h : i.op = .list) : HoldsOp i (runList i) = true := by
+  simp [HoldsOp, clausesOp, effName, h, Clauses.holds_cons, Clauses.holds_nil, runList]
 
-theorem holds_uninstall (i : Input) (h : i.op = .uninstall) : Holds i (runUninstall i) = true := by
+theorem holds_uninstall (i : Input) (h : i.op = .uninstall) : HoldsOp i (runUninstall i) = true := by
   obtain ⟨_, g2, _⟩ := facts_guards
-  simp only [Holds, clauses, effName, h, Clauses.holds_cons, Clauses.holds_nil, Bool.and_true]
+  simp only [HoldsOp, clausesOp, effName, h, Clauses.holds_cons, Clauses.holds_nil, Bool.and_true]
   unfold runUninstall
   rw [g2]
   cases hv : validName i.name with
@@ -380,7 +380,7 @@ theorem comps_copied {fs : List Node} {src exe : Node} {d : Text} {n : Node} (h 
 theorem holds_install_obs (i : Input) (h : i.op = .install) (s e : Node) (nm : Text)
     (hsrc : installSource i.fs i.src = some (s, e, nm)) (hv : validName nm = true)
     (ran : List Text) (hran : ∀ p ∈ ran, isPluginExe i.root nm p = true ∨ under i.src p = true) :
-    Holds i (installFail ran) = true ∧ Holds i (installFinish i s e nm ran) = true := by
+    HoldsOp i (installFail ran) = true ∧ HoldsOp i (installFinish i s e nm ran) = true := by
   obtain ⟨_, g2, _⟩ := facts_guards
   have hs := valid_is_single_component _ hv
   have hd := comps_dirPath i.root nm hv
@@ -388,8 +388,8 @@ theorem holds_install_obs (i : Input) (h : i.op = .install) (s e : Node) (nm : T
     rw [all_sortTexts, List.all_eq_true]
     intro p hp
     rcases hran p hp with e | e <;> simp [e, h]
-  have hfail : Holds i (installFail ran) = true := by
-    simp only [Holds, clauses, effName, h, hsrc, Clauses.holds_cons, Clauses.holds_nil, Bool.and_true, installFail]
+  have hfail : HoldsOp i (installFail ran) = true := by
+    simp only [HoldsOp, clausesOp, effName, h, hsrc, Clauses.holds_cons, Clauses.holds_nil, Bool.and_true, installFail]
     simp [hs]
     simpa [h] using hex
   refine ⟨hfail, ?_⟩
@@ -397,7 +397,7 @@ theorem holds_install_obs (i : Input) (h : i.op = .install) (s e : Node) (nm : T
   simp only [g2, hv, Bool.not_true, Bool.and_false, Bool.false_eq_true, if_false]
   split
   · exact hfail
-  · simp only [Holds, clauses, effName, h, hsrc, Clauses.holds_cons, Clauses.holds_nil, Bool.and_true]
+  · simp only [HoldsOp, clausesOp, effName, h, hsrc, Clauses.holds_cons, Clauses.holds_nil, Bool.and_true]
     have hch : (sortTexts (diffPaths (List.filter (fun n => under (dirPath i.root nm) n.path) i.fs)
         ({ path := dirPath i.root nm, kind := Kind.dir, ver := 0, target := [] } :: copied i.fs s e (dirPath i.root nm)))).all
         (inPluginDir i.root nm) = true := by
@@ -418,16 +418,16 @@ theorem holds_install_obs (i : Input) (h : i.op = .install) (s e : Node) (nm : T
     · simpa using hch'
     · simpa [h] using hex
 
-theorem holds_install (i : Input) (h : i.op = .install) : Holds i (runInstall i) = true := by
+theorem holds_install (i : Input) (h : i.op = .install) : HoldsOp i (runInstall i) = true := by
   obtain ⟨_, _, g3⟩ := facts_guards
   unfold runInstall
   cases hsrc : installSource i.fs i.src with
-  | none => simp [Holds, clauses, effName, h, hsrc, errObs, Clauses.holds]
+  | none => simp [HoldsOp, clausesOp, effName, h, hsrc, errObs, Clauses.holds]
   | some r =>
     obtain ⟨s, e, nm⟩ := r
     simp only [g3, facts_chmod_after_validation]
     cases hv : validName nm with
-    | false => simp [Holds, clauses, effName, h, hsrc, errObs, Clauses.holds]
+    | false => simp [HoldsOp, clausesOp, effName, h, hsrc, errObs, Clauses.holds]
     | true =>
       have hs := valid_is_single_component _ hv
       simp only [Bool.not_true, Bool.and_false, Bool.false_eq_true, if_false]
@@ -463,21 +463,26 @@ theorem holds_install (i : Input) (h : i.op = .install) : Holds i (runInstall i)
             · exact o1.1
             · exact o1.2
       · have : (e.kind != Kind.exec) = true := by simp [hk]
-        simp [this, Holds, clauses, effName, h, hsrc, errObs, Clauses.holds, hs]
+        simp [this, HoldsOp, clausesOp, effName, h, hsrc, errObs, Clauses.holds, hs]
         exact installSource_under hsrc
 
 /-! ### the property -/
 
 /-- **C16, the whole property**: every clause of `Holds` is true of the model's behaviour, for
 every operation, every root string, every name and every world. -/
-theorem model_holds (i : Input) : Holds i (run i) = true := by
-  unfold run
+theorem model_holds_op (i : Input) : HoldsOp i (runOp i) = true := by
+  unfold runOp
   cases h : i.op with
   | get => exact holds_get i h
   | uninstall => exact holds_uninstall i h
   | install => exact holds_install i h
   | verify => exact holds_verify i h
   | list => exact holds_list i h
+
+/-- **C16, the whole property, histories included**: whatever was done before on the same manager
+object (installs, uninstalls, lookups, the install source replaced or deleted), every clause holds
+of the observed operation. -/
+theorem model_holds (i : Input) : Holds i (run i) = true := model_holds_op (eff i)
 
 /-! ### readable corollaries -/
 
@@ -496,12 +501,12 @@ theorem valid_name_confined (root n : Text) (h : validName n = true) :
 whatever it runs is `<root>/<name>/notation-<name>` or (install) the install source - for
 every input; `<name>` is a single component whenever anything ran or changed at all. -/
 theorem effects_confined (i : Input) (hop : i.op ≠ .list) :
-    (∀ p ∈ (run i).changed, ∃ n, effName i = some n ∧ singleComponent n = true ∧ inPluginDir i.root n p = true) ∧
-    (∀ p ∈ (run i).executed, ∃ n, effName i = some n ∧ singleComponent n = true ∧
+    (∀ p ∈ (runOp i).changed, ∃ n, effName i = some n ∧ singleComponent n = true ∧ inPluginDir i.root n p = true) ∧
+    (∀ p ∈ (runOp i).executed, ∃ n, effName i = some n ∧ singleComponent n = true ∧
       (isPluginExe i.root n p = true ∨ (i.op = .install ∧ under i.src p = true))) := by
-  have hm := model_holds i
+  have hm := model_holds_op i
   have hl : (i.op == Op.list) = false := by simpa using hop
-  simp only [Holds, clauses, Clauses.holds_cons, Clauses.holds_nil, Bool.and_true, Bool.and_eq_true, hl,
+  simp only [HoldsOp, clausesOp, Clauses.holds_cons, Clauses.holds_nil, Bool.and_true, Bool.and_eq_true, hl,
     Bool.false_or] at hm
   obtain ⟨_, c2, _, c3, _, c4, _⟩ := hm
   cases hn : effName i with
@@ -535,19 +540,19 @@ theorem effects_confined (i : Input) (hop : i.op ≠ .list) :
 name that is not a single path component - yields an error, runs nothing and changes nothing,
 through lookup, uninstall and end-to-end verification ... -/
 theorem invalid_name_no_effect (i : Input) (h : validName i.name = false)
-    (hop : i.op = .get ∨ i.op = .uninstall ∨ i.op = .verify) : run i = errObs := by
+    (hop : i.op = .get ∨ i.op = .uninstall ∨ i.op = .verify) : runOp i = errObs := by
   obtain ⟨_, g2, _⟩ := facts_guards
   rcases hop with hop | hop | hop
-  · simp [run, hop, runGet, mgrGet_invalid h]
-  · simp [run, hop, runUninstall, g2, h]
-  · simp only [run, hop, runVerify, mgrGet_invalid h]
+  · simp [runOp, hop, runGet, mgrGet_invalid h]
+  · simp [runOp, hop, runUninstall, g2, h]
+  · simp only [runOp, hop, runVerify, mgrGet_invalid h]
     split <;> rfl
 
 /-- ... and through install, where the name comes from the file name `notation-<name>` -/
 theorem invalid_name_no_effect_install (i : Input) (s e : Node) (nm : Text) (hop : i.op = .install)
-    (hsrc : installSource i.fs i.src = some (s, e, nm)) (h : validName nm = false) : run i = errObs := by
+    (hsrc : installSource i.fs i.src = some (s, e, nm)) (h : validName nm = false) : runOp i = errObs := by
   obtain ⟨_, _, g3⟩ := facts_guards
-  simp [run, hop, runInstall, hsrc, g3, h, facts_chmod_after_validation, errObs]
+  simp [runOp, hop, runInstall, hsrc, g3, h, facts_chmod_after_validation, errObs]
 
 /-- every name that is not a single path component is refused by `validatePluginName` -/
 theorem non_component_is_invalid (n : Text) (h : singleComponent n = false) : validName n = false := by
@@ -600,28 +605,28 @@ def sampleFS : List Node :=
     ⟨"/src".toList, .dir, 0, []⟩, ⟨"/src/notation-new".toList, .exec, 2, []⟩, ⟨"/src/notation-..".toList, .exec, 2, []⟩ ]
 
 /-- a valid, installed name is found and run where it should be -/
-example : run { op := .get, root := "/a/p/".toList, name := "good".toList, src := [], overwrite := false, trusted := true, fs := sampleFS } =
+example : run { op := .get, root := "/a/p/".toList, name := "good".toList, src := [], overwrite := false, trusted := true, history := [], fs := sampleFS } =
     { err := false, executed := ["/a/p/good/notation-good".toList], changed := [], listed := [], chmod := [] } := by decide
 
 /-- uninstall removes exactly the plugin directory -/
-example : run { op := .uninstall, root := "/a/p".toList, name := "good".toList, src := [], overwrite := false, trusted := true, fs := sampleFS } =
+example : run { op := .uninstall, root := "/a/p".toList, name := "good".toList, src := [], overwrite := false, trusted := true, history := [], fs := sampleFS } =
     { err := false, executed := [], changed := ["/a/p/good".toList, "/a/p/good/notation-good".toList], listed := [], chmod := [] } := by decide
 
 /-- the traversal is refused -/
-example : run { op := .uninstall, root := "/a/p".toList, name := "../victim".toList, src := [], overwrite := false, trusted := true, fs := sampleFS } =
+example : run { op := .uninstall, root := "/a/p".toList, name := "../victim".toList, src := [], overwrite := false, trusted := true, history := [], fs := sampleFS } =
     errObs := by decide
 
 /-- install from a file creates `<root>/<name>/notation-<name>` and runs only the source -/
-example : run { op := .install, root := "/a/p".toList, name := "new".toList, src := "/src/notation-new".toList, overwrite := false, trusted := true, fs := sampleFS } =
+example : run { op := .install, root := "/a/p".toList, name := "new".toList, src := "/src/notation-new".toList, overwrite := false, trusted := true, history := [], fs := sampleFS } =
     { err := false, executed := ["/src/notation-new".toList],
       changed := ["/a/p/new".toList, "/a/p/new/notation-new".toList], listed := [], chmod := [] } := by decide
 
 /-- a file called `notation-..` is refused before it is run -/
-example : run { op := .install, root := "/a/p".toList, name := "..".toList, src := "/src/notation-..".toList, overwrite := true, trusted := true, fs := sampleFS } =
+example : run { op := .install, root := "/a/p".toList, name := "..".toList, src := "/src/notation-..".toList, overwrite := true, trusted := true, history := [], fs := sampleFS } =
     errObs := by decide
 
 /-- the listing: the real directory only -/
-example : (run { op := .list, root := "/a/p".toList, name := [], src := [], overwrite := false, trusted := true, fs := sampleFS }).listed =
+example : (run { op := .list, root := "/a/p".toList, name := [], src := [], overwrite := false, trusted := true, history := [], fs := sampleFS }).listed =
     ["good".toList] := by decide
 
 /-- a plugin directory left over by a broken installation: the executable entry is a dangling
@@ -635,28 +640,54 @@ def leftoverFS : List Node :=
 
 /-- Install replaces the left-over directory: the links go, a fresh executable comes, and
 nothing outside `<root>/<name>` is touched -/
-example : run { op := .install, root := "/a/p".toList, name := "new".toList, src := "/src/notation-new".toList, overwrite := false, trusted := true, fs := leftoverFS } =
+example : run { op := .install, root := "/a/p".toList, name := "new".toList, src := "/src/notation-new".toList, overwrite := false, trusted := true, history := [], fs := leftoverFS } =
     { err := false, executed := ["/src/notation-new".toList],
       changed := ["/a/p/new/LICENSE".toList, "/a/p/new/notation-new".toList], listed := [], chmod := [] } := by decide
 
 /-- `Holds` is false of an Install that wrote through the dangling link -/
-example : Holds { op := .install, root := "/a/p".toList, name := "new".toList, src := "/src/notation-new".toList, overwrite := false, trusted := true, fs := leftoverFS }
+example : Holds { op := .install, root := "/a/p".toList, name := "new".toList, src := "/src/notation-new".toList, overwrite := false, trusted := true, history := [], fs := leftoverFS }
     { err := false, executed := ["/src/notation-new".toList], changed := ["/outside/ghost1".toList], listed := [], chmod := [] } = false := by decide
 
+/-- a download area outside the root, and the plugin `new` with neighbours whose names derive from it -/
+def historyFS : List Node :=
+  [ ⟨"/a".toList, .dir, 0, []⟩, ⟨"/a/p".toList, .dir, 0, []⟩,
+    ⟨"/a/p/new".toList, .dir, 0, []⟩, ⟨"/a/p/new/notation-new".toList, .exec, 1, []⟩,
+    ⟨"/a/p/new.removing".toList, .dir, 0, []⟩, ⟨"/a/p/new.removing/notation-new.removing".toList, .exec, 4, []⟩,
+    ⟨"/dl".toList, .dir, 0, []⟩, ⟨"/dl/notation-new".toList, .exec, 2, []⟩ ]
+
+/-- install, then the download is replaced, then Get on the same manager: what runs is the installed copy -/
+example : run { op := .get, root := "/a/p".toList, name := "new".toList, src := "/dl/notation-new".toList, overwrite := false, trusted := true, history := [.install, .touchSrc], fs := historyFS } =
+    { err := false, executed := ["/a/p/new/notation-new".toList], changed := [], listed := [], chmod := [] } := by decide
+
+/-- `Holds` is false of a manager that hands out the plugin object built from the download -/
+example : Holds { op := .get, root := "/a/p".toList, name := "new".toList, src := "/dl/notation-new".toList, overwrite := false, trusted := true, history := [.install, .touchSrc], fs := historyFS }
+    { err := false, executed := ["/dl/notation-new".toList], changed := [], listed := [], chmod := [] } = false := by decide
+
+/-- install - uninstall - get: the plugin is gone -/
+example : run { op := .get, root := "/a/p".toList, name := "new".toList, src := "/dl/notation-new".toList, overwrite := false, trusted := true, history := [.install, .uninstall], fs := historyFS } = errObs := by decide
+
+/-- uninstall leaves the neighbour `new.removing` alone; `Holds` is false of one that does not -/
+example : run { op := .uninstall, root := "/a/p".toList, name := "new".toList, src := [], overwrite := false, trusted := true, history := [], fs := historyFS } =
+    { err := false, executed := [], changed := ["/a/p/new".toList, "/a/p/new/notation-new".toList], listed := [], chmod := [] } := by decide
+example : Holds { op := .uninstall, root := "/a/p".toList, name := "new".toList, src := [], overwrite := false, trusted := true, history := [], fs := historyFS }
+    { err := false, executed := [],
+      changed := ["/a/p/new".toList, "/a/p/new.removing".toList, "/a/p/new.removing/notation-new.removing".toList, "/a/p/new/notation-new".toList],
+      listed := [], chmod := [] } = false := by decide
+
 /-- `Holds` is false of the unguarded behaviour: the victim directory removed ... -/
-example : Holds { op := .uninstall, root := "/a/p".toList, name := "../victim".toList, src := [], overwrite := false, trusted := true, fs := sampleFS }
+example : Holds { op := .uninstall, root := "/a/p".toList, name := "../victim".toList, src := [], overwrite := false, trusted := true, history := [], fs := sampleFS }
     { err := false, executed := [], changed := ["/a/victim".toList, "/a/victim/notation-victim".toList], listed := [], chmod := [] } = false := by decide
 
 /-- end to end: the plugin named by the signature runs although the signer is not trusted -/
-example : run { op := .verify, root := "/a/p".toList, name := "good".toList, src := [], overwrite := false, trusted := false, fs := sampleFS } =
+example : run { op := .verify, root := "/a/p".toList, name := "good".toList, src := [], overwrite := false, trusted := false, history := [], fs := sampleFS } =
     { err := true, executed := ["/a/p/good/notation-good".toList], changed := [], listed := [], chmod := [] } := by decide
 
 /-- ... a sentinel outside the root executed ... -/
-example : Holds { op := .verify, root := "/a/p".toList, name := "../victim".toList, src := [], overwrite := false, trusted := false, fs := sampleFS }
+example : Holds { op := .verify, root := "/a/p".toList, name := "../victim".toList, src := [], overwrite := false, trusted := false, history := [], fs := sampleFS }
     { err := true, executed := ["/a/victim/notation-victim".toList], changed := [], listed := [], chmod := [] } = false := by decide
 
 /-- ... or a hostile name merely accepted without an error -/
-example : Holds { op := .get, root := "/a/p".toList, name := "good/../good".toList, src := [], overwrite := false, trusted := true, fs := sampleFS }
+example : Holds { op := .get, root := "/a/p".toList, name := "good/../good".toList, src := [], overwrite := false, trusted := true, history := [], fs := sampleFS }
     { err := false, executed := [], changed := [], listed := [], chmod := [] } = false := by decide
 
 /-- a directory source whose only candidate lacks the execute permission -/
@@ -666,19 +697,19 @@ def nonexecFS : List Node :=
     ⟨"/srcx".toList, .dir, 0, []⟩, ⟨"/srcx/notation-x".toList, .file, 2, []⟩ ]
 
 /-- an accepted name: the candidate is made executable (and then cannot be run: it is a data file) -/
-example : run { op := .install, root := "/a/p".toList, name := "x".toList, src := "/srcx".toList, overwrite := false, trusted := true, fs := nonexecFS } =
+example : run { op := .install, root := "/a/p".toList, name := "x".toList, src := "/srcx".toList, overwrite := false, trusted := true, history := [], fs := nonexecFS } =
     { err := true, executed := [], changed := [], listed := [], chmod := ["/srcx/notation-x".toList] } := by decide
 
 /-- a refused name: not even a permission changes -/
-example : run { op := .install, root := "/a/p".toList, name := "..".toList, src := "/srcdir".toList, overwrite := false, trusted := true, fs := nonexecFS } =
+example : run { op := .install, root := "/a/p".toList, name := "..".toList, src := "/srcdir".toList, overwrite := false, trusted := true, history := [], fs := nonexecFS } =
     errObs := by decide
 
 /-- `Holds` is false of an Install that made `notation-..` executable before refusing the name -/
-example : Holds { op := .install, root := "/a/p".toList, name := "..".toList, src := "/srcdir".toList, overwrite := false, trusted := true, fs := nonexecFS }
+example : Holds { op := .install, root := "/a/p".toList, name := "..".toList, src := "/srcdir".toList, overwrite := false, trusted := true, history := [], fs := nonexecFS }
     { err := true, executed := [], changed := [], listed := [], chmod := ["/srcdir/notation-..".toList] } = false := by decide
 
 /-- and of a listing that reports a symbolic link -/
-example : Holds { op := .list, root := "/a/p".toList, name := [], src := [], overwrite := false, trusted := true, fs := sampleFS }
+example : Holds { op := .list, root := "/a/p".toList, name := [], src := [], overwrite := false, trusted := true, history := [], fs := sampleFS }
     { err := false, executed := [], changed := [], listed := ["good".toList, "lnk".toList], chmod := [] } = false := by decide
 
 /-! ### tie to the translated source -/
